@@ -1,9 +1,158 @@
 import NmVerif.Proto
+import NmVerif.Functional
 namespace NmVerif.Driver.C14
-open NmVerif NmVerif.Proto
+open NmVerif NmVerif.Proto NmVerif.Functional
 
-def handle : Handler := fun op _args =>
+/-! terms `name` / `name(t,t,…)` — compositions `M(M(p2,p1),dig2)`, view trees `add(mul(0,1),2)` -/
+inductive Term where
+  | mk (name : String) (args : List Term)
+deriving Inhabited
+
+partial def Term.toString : Term → String
+  | .mk n [] => n
+  | .mk n as => n ++ "(" ++ ",".intercalate (as.map Term.toString) ++ ")"
+
+/-- recursive descent over the characters; returns the term and the rest -/
+partial def parseTerm (cs : List Char) : Option (Term × List Char) :=
+  let name := cs.takeWhile (fun c => c != '(' && c != ')' && c != ',')
+  let rest := cs.dropWhile (fun c => c != '(' && c != ')' && c != ',')
+  if name.isEmpty then none else
+  match rest with
+  | '(' :: r =>
+    let rec args (cs : List Char) (acc : List Term) : Option (List Term × List Char) :=
+      match parseTerm cs with
+      | none => none
+      | some (t, ',' :: r) => args r (acc ++ [t])
+      | some (t, ')' :: r) => some (acc ++ [t], r)
+      | _ => none
+    (args r []).map fun (as, r') => (Term.mk (String.ofList name) as, r')
+  | _ => some (Term.mk (String.ofList name) [], rest)
+
+def parse (s : String) : Option Term :=
+  match parseTerm s.toList with
+  | some (t, []) => some t
+  | _ => none
+
+/-! probe functors: values are symbolic terms (strings), attributes are strings -/
+abbrev PV := String
+def probeF (k : Nat) : Functor String PV :=
+  ⟨k, fun ats xs => [s!"p{k}(" ++ ",".intercalate (xs ++ ats) ++ ")"]⟩
+
+def atom (n : String) : Option (Fn String PV) :=
+  match n with
+  | "p1" => some (.ofFunctor (probeF 1)) | "p2" => some (.ofFunctor (probeF 2)) | "p3" => some (.ofFunctor (probeF 3))
+  | "swap" => some (.ofFunctor swapF) | "dup" => some (.ofFunctor (dupF 2))
+  | "dig1" => some (.ofFunctor (digF 1)) | "dig2" => some (.ofFunctor (digF 2))
+  | "bury1" => some (.ofFunctor (buryF 1)) | "bury2" => some (.ofFunctor (buryF 2))
+  | _ => none
+
+/-- `M(l, r)` = `l * r` -/
+partial def toFC : Term → Option (FC String PV)
+  | .mk "M" [l, r] => do pure ((← toFC l).mul (← toFC r))
+  | .mk n [] => (atom n).map .fn
+  | _ => none
+
+inductive St where
+  | fn (g : Fn String PV)
+  | comp (c : Comp String PV)
+  | values (vs : List PV)
+  | err (e : String)
+
+def showSt : St → String
+  | .fn g => s!"curried arity={g.arity}"
+  | .comp c => s!"curried arity={c.arity}"
+  | .values vs => "values " ++ ";".intercalate vs
+  | .err e => e
+
+def stepOps (st : St) (ops : List PV) : St :=
+  match st with
+  | .fn g => match applyFn g ops with | .curried g' => .fn g' | .values vs => .values vs
+  | .comp c => match applyComp c ops with
+    | some (.curried c') => .comp c' | some (.values vs) => .values vs | none => .err "void"
+  | .values _ => .err "not-callable"
+  | .err e => .err e
+
+def stepAttr (st : St) (a : String) : St :=
+  match st with
+  | .fn g => .fn (g.withAttr a)
+  | .comp _ => .err "no-attr"
+  | .values _ => .err "not-callable"
+  | .err e => .err e
+
+/-! view trees over symbolic values -/
+def viewF (name : String) (arity : Nat) : VFun String PV :=
+  ⟨arity, fun _ xs => name ++ "(" ++ ",".intercalate xs ++ ")"⟩
+
+mutual
+partial def toView : Term → Option (View String PV)
+  | .mk n [] => n.toNat?.map .leaf
+  | .mk n as => do
+      let args ← toArgs as
+      pure (.node (viewF n as.length) [] args)
+partial def toArgs : List Term → Option (Args String PV)
+  | [] => some .nil
+  | t :: ts => do pure (.cons (← toView t) (← toArgs ts))
+end
+
+mutual
+/-- decorate a view tree with distinct node ids (a counter in reading order): the hypothesis of the graph theorems -/
+partial def decorate (n : Nat) : Term → Option (IView × Nat)
+  | .mk nm [] =>
+      -- `a<j>`: leaf behind view::alias(x_j, j): node id j, shared by every occurrence; `<j>`: un-aliased occurrence, fresh id
+      if nm.startsWith "a" then (nm.drop 1).toString.toNat?.map fun i => (.leaf i i, n)
+      else nm.toNat?.map fun i => (.leaf n i, n + 1)
+  | .mk _ as => do
+      let (args, n') ← decorateArgs n as
+      pure (.node n' args, n' + 1)
+partial def decorateArgs (n : Nat) : List Term → Option (IArgs × Nat)
+  | [] => some (.nil, n)
+  | t :: ts => do
+      let (v, n1) ← decorate n t
+      let (r, n2) ← decorateArgs n1 ts
+      pure (.cons v r, n2)
+end
+
+def labelStr : GLabel → String
+  | .leaf i => s!"L{i}"
+  | .op ids => s!"F{ids.length}[{"/".intercalate (ids.map toString)}]"
+
+def handle : Handler := fun op a =>
   match op with
+  | "c14_probe" => orBad do
+      let t ← (a.get? "comp").bind parse
+      let fc ← toFC t
+      let steps := ((a.get? "steps").getD "").splitOn ";"
+      let st0 : St := match fc with
+        | .fn g => .fn g
+        | .comp fs => .comp ⟨fs, []⟩
+      let st := steps.foldl (fun st s =>
+        if s.startsWith "o:" then stepOps st ((s.drop 2).toString.splitOn ",")
+        else if s.startsWith "a:" then stepAttr st (s.drop 2).toString
+        else st) st0
+      pure s!"ok {showSt st}"
+  | "c14_extract" => orBad do
+      -- what extraction + re-application computes for a view tree, symbolically (`x<i>` = leaf array i)
+      let t ← (a.get? "tree").bind parse
+      let v ← toView t
+      let env : Nat → PV := fun i => s!"x{i}"
+      let ops := v.operandsOf
+      let res := match applyComp ⟨v.compile, []⟩ (ops.map env) with
+        | some (.values vs) => ";".intercalate vs
+        | some (.curried _) => "curried"
+        | none => "void"
+      pure s!"ok leaves={fmtNats ops} ll={if v.leftLinear then 1 else 0} nfun={v.compile.length} term={res} view={v.denote env}"
+  | "c14_graph" => orBad do
+      let t ← (a.get? "tree").bind parse
+      let (iv, _) ← decorate 1000 t
+      match iv.graph with
+      | none => pure "no-graph"
+      | some g =>
+        let ns := ",".intercalate (g.nodes.map fun (k, l) => s!"{k}:{labelStr l}")
+        let es := ",".intercalate (g.edges.map fun (s, d) => s!"{s}>{d}")
+        pure s!"ok nodes={ns} edges={if es.isEmpty then "[]" else es}"
+  | "c14_alias" => orBad do
+      let ids ← a.nats "ids"
+      pure s!"ok {generateAlias ids}"
   | _ => none
 
 end NmVerif.Driver.C14
